@@ -295,7 +295,9 @@ def history_round_jobs(m, tier='quick'):
                         carriers=[r'R_<.*>::replayTransitions', r'R_<.*>::processTransitions', r'RegistryT<.*>::restore'], case_key='%s/approved round then a round that may be vetoed/cfg=%d/%d,%d then %d' % (m.name, c, d1, d2, d3), **base)
 history_round_jobs(M_RES)
 serial_jobs(M_RES); serial_jobs(M_ORTHO); serial_jobs(M_NEST)
-history_jobs(M_RES); history_jobs(M_NEST); history_jobs(M_ORTHO, tier='thorough')
+history_jobs(M_RES); history_jobs(M_NEST)
+_n0 = len(JOBS); history_jobs(M_ORTHO, tier='thorough')
+for _j in JOBS[_n0:]: _j['timeout'] = 3000       # two 9-state instances per job: 10-20 min each
 
 # ------------------------------------------------------------------ C10 determinism (two-run contracts)
 for variant, vdefs in (('user_rng', {}), ('builtin_rng', {'VD_BUILTIN_RNG': None})):
